@@ -103,3 +103,59 @@ pub(crate) fn actor_event(line: String) {
         let _ = writeln!(file, "{{\"seq\":{seq},{line}}}");
     }
 }
+
+// ---- H10: event sink of the live engine's per-(document, peer) sync slots ----------------------
+
+static LIVE_SINK: std::sync::Mutex<Option<Option<std::fs::File>>> = std::sync::Mutex::new(None);
+static LIVE_SEQ: AtomicU64 = AtomicU64::new(1);
+static LIVE_INSTANCE: AtomicU64 = AtomicU64::new(1);
+
+thread_local! {
+    static LIVE_CURRENT: std::cell::Cell<u64> = const { std::cell::Cell::new(0) };
+}
+
+/// Identity of one per-document state of `NamespaceStates` (a new one for every insertion).
+#[derive(Debug)]
+pub(crate) struct InstanceId(pub(crate) u64);
+
+impl Default for InstanceId {
+    fn default() -> Self {
+        InstanceId(LIVE_INSTANCE.fetch_add(1, Ordering::SeqCst))
+    }
+}
+
+/// True if `IROH_DOCS_VERIF_TRACE` names a directory (the sink is opened on first use).
+pub(crate) fn live_enabled() -> bool {
+    std::env::var_os("IROH_DOCS_VERIF_TRACE").is_some()
+}
+
+fn live_write(seq: u64, line: String) {
+    use std::io::Write;
+    let mut guard = LIVE_SINK.lock().expect("poisoned");
+    let sink = guard.get_or_insert_with(|| {
+        let dir = std::env::var_os("IROH_DOCS_VERIF_TRACE")?;
+        let path = std::path::Path::new(&dir).join(format!("{}.live.jsonl", std::process::id()));
+        std::fs::OpenOptions::new().create(true).append(true).open(path).ok()
+    });
+    if let Some(file) = sink.as_mut() {
+        let _ = writeln!(file, "{{\"seq\":{seq},{line}}}");
+    }
+}
+
+/// Entry of a transition function of `engine/state.rs` (the owner of the state is the live actor task, the
+/// functions are synchronous: the sequence number orders the calls on one state, no clock is involved).
+pub(crate) fn live_enter(line: String) {
+    let seq = LIVE_SEQ.fetch_add(1, Ordering::SeqCst);
+    LIVE_CURRENT.with(|c| c.set(seq));
+    live_write(seq, format!("\"k\":\"enter\",{line}"));
+}
+
+/// Return value and slot after the change, right before the function returns; `of` names the entry line.
+pub(crate) fn live_exit(line: String) {
+    if !live_enabled() {
+        return;
+    }
+    let seq = LIVE_SEQ.fetch_add(1, Ordering::SeqCst);
+    let of = LIVE_CURRENT.with(|c| c.get());
+    live_write(seq, format!("\"k\":\"exit\",\"of\":{of},{line}"));
+}
